@@ -16,7 +16,7 @@
    is not the negative zero. *)
 From Coq Require Import ZArith Bool List.
 From Verif Require Import Base.C06_JsNum Model.C06_Prelude64 Model.C06_Spec Gen.C06_Tables Model.C06_Templates
-  Proofs.C06_Arith Proofs.C06_Fix Proofs.C06_Tie Proofs.C06_AddMul32 Proofs.C06_Div32 Proofs.C06_Bits32 Proofs.C06_Shift32 Proofs.C06_Ops64 Proofs.C06_Status.
+  Proofs.C06_Arith Proofs.C06_Fix Proofs.C06_Tie Proofs.C06_AddMul32 Proofs.C06_Div32 Proofs.C06_Bits32 Proofs.C06_Shift32 Proofs.C06_Ops64 Proofs.C06_Mul64 Proofs.C06_Bits64 Proofs.C06_Status.
 Import ListNotations.
 Local Open Scope Z_scope.
 
@@ -177,25 +177,66 @@ Proof. exact shiftr_in_range. Qed.
 Print Assumptions C06_shift_results_in_range.
 
 (* ---- 64-bit kinds: a value v is the object enc64 k v = ($high = v / 2^32, $low = v mod 2^32) ------------
-   Proved: constructor normalisation, + - unary -, all comparisons, conversions into a 64-bit kind.
+   Proved: constructor normalisation, + - * & | ^ &^, unary - ^, all comparisons, every conversion from/to/between 64-bit kinds.
    NOT proved (modelled, tied differentially on grids against BigInt and the model; hence _partial):
-   $mul64, $div64 (loop invariant), $shiftLeft64/$shiftRight*64, bitwise operators, 64 -> 32-bit conversions. *)
+   $div64 (/ and %: the two loops' invariant) and $shiftLeft64/$shiftRightInt64/$shiftRightUint64. *)
 Definition C06_int64_full_statement (V : variant) : Prop :=
   forall k o x y, is64 k = true -> in_range k x -> in_range k y ->
   bin64 V k o (enc64 k x) (enc64 k y) =
   match go_bin k o x y with GVal v => Ret (enc64 k v) | GPanicDivide => Throw DivideByZero end.
+Theorem C06_int64_binop_correct_partial : forall V k o x y, is64 k = true -> in_range k x -> in_range k y ->
+  o <> Quo -> o <> Rem ->
+  bin64 V k o (enc64 k x) (enc64 k y) =
+  match go_bin k o x y with GVal v => Ret (enc64 k v) | GPanicDivide => Throw DivideByZero end.
+Proof. exact bin64_correct_partial. Qed.
+Print Assumptions C06_int64_binop_correct_partial.
 Theorem C06_ctor64_normalises : forall tr sg h l, - two53 <= h + l / two32 <= two53 ->
   new64v tr sg (Fin h) (Fin l) = enc64 (k64 sg) (wrap (k64 sg) (h * two32 + l)).
 Proof. exact new64_norm. Qed.
 Print Assumptions C06_ctor64_normalises.
-Theorem C06_add64_correct_partial : forall V k x y, is64 k = true -> in_range k x -> in_range k y ->
+Theorem C06_add64_correct : forall V k x y, is64 k = true -> in_range k x -> in_range k y ->
   bin64 V k Add (enc64 k x) (enc64 k y) = Ret (enc64 k (wrap k (x + y))).
 Proof. exact add64_correct. Qed.
-Print Assumptions C06_add64_correct_partial.
-Theorem C06_sub64_correct_partial : forall V k x y, is64 k = true -> in_range k x -> in_range k y ->
+Print Assumptions C06_add64_correct.
+Theorem C06_sub64_correct : forall V k x y, is64 k = true -> in_range k x -> in_range k y ->
   bin64 V k Sub (enc64 k x) (enc64 k y) = Ret (enc64 k (wrap k (x - y))).
 Proof. exact sub64_correct. Qed.
-Print Assumptions C06_sub64_correct_partial.
+Print Assumptions C06_sub64_correct.
+(* $mul64: schoolbook multiplication on 16-bit digits is the product modulo 2^64, for ALL operands
+   (every intermediate is below 2^32 + 2^34, far below 2^53). *)
+Theorem C06_mul64_correct : forall V k x y, is64 k = true ->
+  bin64 V k Mul (enc64 k x) (enc64 k y) = Ret (enc64 k (wrap k (x * y))).
+Proof. exact mul64_bin_correct. Qed.
+Print Assumptions C06_mul64_correct.
+Theorem C06_mul64_helper_correct : forall tr sg sg' xh xl yh yl, 0 <= xl < two32 -> 0 <= yl < two32 ->
+  mul64 tr (O64 sg xh xl) (O64 sg' yh yl) =
+  enc64 (k64 sg) (wrap (k64 sg) (((xh mod two32) * two32 + xl) * ((yh mod two32) * two32 + yl))).
+Proof. exact mul64_value. Qed.
+Print Assumptions C06_mul64_helper_correct.
+Theorem C06_and64_correct : forall V k x y, is64 k = true -> in_range k x -> in_range k y ->
+  bin64 V k And (enc64 k x) (enc64 k y) = Ret (enc64 k (Z.land x y)).
+Proof. exact and64_correct. Qed.
+Print Assumptions C06_and64_correct.
+Theorem C06_or64_correct : forall V k x y, is64 k = true -> in_range k x -> in_range k y ->
+  bin64 V k Or (enc64 k x) (enc64 k y) = Ret (enc64 k (Z.lor x y)).
+Proof. exact or64_correct. Qed.
+Print Assumptions C06_or64_correct.
+Theorem C06_xor64_correct : forall V k x y, is64 k = true -> in_range k x -> in_range k y ->
+  bin64 V k Xor (enc64 k x) (enc64 k y) = Ret (enc64 k (wrap k (Z.lxor x y))).
+Proof. exact xor64_correct. Qed.
+Print Assumptions C06_xor64_correct.
+Theorem C06_andnot64_correct : forall V k x y, is64 k = true ->
+  bin64 V k AndNot (enc64 k x) (enc64 k y) = Ret (enc64 k (wrap k (Z.land x (Z.lnot y)))).
+Proof. exact andnot64_correct. Qed.
+Print Assumptions C06_andnot64_correct.
+Theorem C06_not64_correct : forall V k x, is64 k = true -> in_range k x ->
+  un64 V k Not (enc64 k x) = Ret (enc64 k (go_un k Not x)).
+Proof. exact not64_correct. Qed.
+Print Assumptions C06_not64_correct.
+Theorem C06_conv_64to32_correct : forall k1 k2 x, is64 k1 = true -> is64 k2 = false -> in_range k1 x ->
+  conv_on k1 k2 (enc64 k1 x) = Ret (Fin (go_conv k2 x)).
+Proof. exact conv_on_correct. Qed.
+Print Assumptions C06_conv_64to32_correct.
 Theorem C06_neg64_correct : forall V k x, is64 k = true -> in_range k x ->
   un64 V k Neg (enc64 k x) = Ret (enc64 k (go_un k Neg x)).
 Proof. exact neg64_correct. Qed.
